@@ -37,7 +37,11 @@ FormsAgree(forms, o) ==
   \A i \in 1..Len(forms) :
      LET f == forms[i] IN
      /\ f.status = o.status
-     /\ (f.status = "ok" => f.v = o.v /\ SizesEq(f.sizes, o.sizes) /\ (f.pos = -1 \/ f.pos = o.pos))
+     \* T(b) with a bytes object exactly as long as the single char member of T is the documented value shortcut: the same
+     \* value, but an instance that was not parsed records no sizes
+     /\ (f.status = "ok" => /\ f.v = o.v
+                            /\ (SizesEq(f.sizes, o.sizes) \/ (f.form = "call" /\ f.kind = "bytes" /\ \A j \in 1..Len(f.sizes) : f.sizes[j] = -1))
+                            /\ (f.pos = -1 \/ f.pos = o.pos))
 
 ParseClauses(T) ==
   LET r == Decode(T.type, T.mode, T.input, T.start, << >>, T.consts)
